@@ -39,8 +39,9 @@ RULE = ("case = tap profile (1..8 taps, delay/Ts in [0,20] (thorough 60): "
         "RNG seeded from the case) x wrapper and antennas (SISO, (Nr,Nt) in "
         "{1..3}^2 with Nr!=Nt forced in half of the MIMO cases) x history of "
         "1..3 transmissions interleaved with switched_direction / path-loss "
-        "changes; frequency domain: fft > channel memory, selection None / "
-        "index list or array (unsorted, optionally repeated) / slice incl. "
+        "changes; frequency domain: fft > channel memory (12%: <=), selection "
+        "None / index list or array (unsorted, optionally repeated) / slice "
+        "incl. "
         "negative and non-dividing steps, 1..4 blocks; multi-user: N int or "
         "(n_rx,n_tx) in {1..3}^2, SISO or MIMO links, path-loss matrix. "
         "non-trivial = >=2 discretised taps and at least one of {Nr!=Nt, "
@@ -58,15 +59,16 @@ LEVEL_TEXT = ("Generated-input search (Hypothesis, seeded, sharded) over tap "
               "All slice selections are enumerated completely for small fft "
               "sizes. Absence of violations is not proven.")
 LEVEL_NOTE = ("float64; tolerances 1e-10 relative to max|x|*max|h|*terms "
-              "(observed <= 1e-15); channel memory >= fft_size is outside the "
-              "generated domain")
+              "(observed <= 2e-15)")
 TECHNIQUE = ("property-based testing (Hypothesis): reference model "
              "(convolution / DFT), metamorphic twins (superposition, block "
              "time base), exhaustive enumeration of slice selections")
 ASSUMPTIONS = [
-    "fft_size > channel memory (max discretised delay) in every frequency "
-    "domain transmission: for longer responses np.fft.fft(h, n) truncates and "
-    "'the DFT of the reported response' is ambiguous (see C02 / defect #2)",
+    "when the reported response is at least as long as fft_size (class "
+    "fft<=memory, ~10% of the frequency domain transmissions) 'the DFT of the "
+    "reported response' is taken as sum_l h_l exp(-2 pi i k l / fft) over ALL "
+    "taps (aliasing), the behaviour of get_freq_response since commit "
+    "7f16ddc (before it np.fft.fft truncated; C02 defect #2)",
     "tap delays >= 0, tap powers in [-40, 0] dB, path loss in (0, 1], "
     "selections pick at least one carrier with indexes in [0, fft_size)",
     "delays closer than 1e-9 (relative) to a rounding tie k+0.5 are excluded "
@@ -80,7 +82,7 @@ ASSUMPTIONS = [
     "Rayleigh and for the generators MuChannel clones itself",
 ]
 
-QUICK_BUDGET_S = 180   # ~120 CPU-s in total; only reached on an overloaded host
+QUICK_BUDGET_S = 180   # ~100 CPU-s in total; only reached on a loaded host
 THOROUGH_BUDGET_S = 1500
 
 COST = {"TU": "COST259_TUx", "RA": "COST259_RAx", "HT": "COST259_HTx"}
@@ -272,8 +274,12 @@ def _tx_time(draw, tier):
 @st.composite
 def _tx_freq(draw, tier, mem_ub):
     extra = 40 if tier == "quick" else 200
-    fft = draw(st.one_of(st.integers(mem_ub + 1, mem_ub + 8),
-                         st.integers(mem_ub + 1, mem_ub + extra)))
+    if mem_ub >= 2 and _p(draw, 0.12):
+        # response at least as long as the FFT (taps alias modulo fft_size)
+        fft = draw(st.integers(2, mem_ub))
+    else:
+        fft = draw(st.one_of(st.integers(mem_ub + 1, mem_ub + 8),
+                             st.integers(mem_ub + 1, mem_ub + extra)))
     fft = max(fft, 2)
     sel = draw(_selection(fft, tier))
     nb = draw(st.integers(1, 4 if tier == "quick" else 8))
@@ -637,7 +643,8 @@ class _Single(object):
         # profile arguments
         kw = {}
         if prof["mode"] == "arrays":
-            kw = dict(tap_powers_dB=np.array(p_dB), tap_delays=np.array(delays))
+            kw = dict(tap_powers_dB=np.array(p_dB),
+                      tap_delays=np.array(delays))
         else:
             pobj = cost_obj if cost_obj is not None else _tagged(
                 self.tags, fading.TdlChannelProfile, np.array(p_dB),
@@ -808,8 +815,9 @@ def _check_single(case, ctx):
                       "n=%d idx=%r" % (n, ir["idx"]), tags)
         else:
             fft, nb, ks = op["fft"], op["nb"], rec["ks"]
+            tags["fft_le_memory"] = bool(fft <= mem)
             if fft <= mem:
-                raise AssertionError("generator produced fft <= memory")
+                ctx.label("fft<=memory")
             sel = op["sel"]
             ctx.label("tx=freq", "sel=" + sel["kind"])
             if sel["kind"] == "slice":
@@ -868,8 +876,10 @@ def _check_single(case, ctx):
             hs = max(float(np.max(np.abs(sd))), 1e-300)
             end = ra["pos"] + (ra["op"]["n"] if ra["op"]["op"] == "time"
                                else ra["op"]["fft"] * ra["op"]["nb"])
-            # the generator's time axis uses a step of Ts*(1+1e-10): phase drift
-            # 2 pi Fd Ts pos 1e-10 per ray; factor 1000 covers sqrt(L)/max|h|
+            # until commit 7552342 the generator's time axis used a step of
+            # Ts*(1+1e-10): phase drift 2 pi Fd Ts pos 1e-10 per ray; the
+            # factor 1000 covers sqrt(L)/max|h| (observed <= 1.2e-8 before,
+            # 4e-16 after that commit)
             tol = 1e-9 + 2 * math.pi * fad["fdts"] * end * 1e-7
             ctx.close("freq_block_time_base",
                       float(np.max(np.abs(sa - sd))) / hs, tol,
@@ -1011,8 +1021,9 @@ def _check_mu(case, ctx):
         for key in sorted(rec["irs"]):
             _check_ir_structure(rec["irs"][key], exp_idx, ant, nsamp, tags)
         if op["op"] == "freq":
+            tags["fft_le_memory"] = bool(op["fft"] <= mem)
             if op["fft"] <= mem:
-                raise AssertionError("generator produced fft <= memory")
+                ctx.label("fft<=memory")
             ctx.label("sel=" + op["sel"]["kind"])
             if op["sel"]["kind"] == "slice":
                 ctx.label("slice_div" if tags["step_divides_span"]
